@@ -58,16 +58,16 @@ CHECKS.update({
     text="Token soup over a vocabulary of every keyword, punctuation, identifier, number/string/comment shape, whitespace kind and multi-byte character; 1-6 mutations (delete/duplicate/swap/insert/replace token, truncation at any character boundary, splice, CR/CRLF/tab line endings) of generated programs and of the repository's scripts; valid sized families. Lexing, parsing and static checking must return within the watchdog, every diagnostic/label span must be ordered, in range and on character boundaries, rendering must give valid UTF-8, and the real binary must not execute a text whose front end reported an error.",
     note="Texts <= 16 KiB; deep nesting belongs to C08; the resolver is exercised on parser-clean texts as the shipped pipelines do."),
  "C09": dict(
-    technique="property-based testing with AST-level fault injection against a reference static checker (two-directional oracle) + exhaustive rule x context grid",
-    text="Valid generated programs must be accepted; the same programs with one injected violation (14 mutation operators covering every documented static rule, applied at generated positions and nesting contexts) must be rejected exactly when the reference static checker over the generator's own AST finds a broken rule, and some diagnostic must name that rule's category. An exhaustive grid of rule snippets in 8 nesting contexts complements it.",
-    note="Type errors are only asserted on literal/declared types; method arity on receivers the reference cannot type is not asserted; trusts harness/src/nsgen/resolve.rs."),
+    technique="property-based testing with AST-level fault injection against a reference static checker (two-directional oracle) + exhaustive rule x context grid + bounded-exhaustive operator typing table",
+    text="Valid generated programs must be accepted; the same programs with one injected violation (14 mutation operators covering every documented static rule, applied at generated positions and nesting contexts) must be rejected exactly when the reference static checker over the generator's own AST finds a broken rule, and some diagnostic must name that rule's category. An exhaustive grid of rule snippets in 8 nesting contexts complements it. A bounded-exhaustive operator typing table (every binary operator over 17 x 17 operand spellings of the five static types and two dynamically typed forms, unary operators, conditions, indexing, in 8 contexts) is checked against verdicts written down from the documented rules.",
+    note="Generated programs: type errors are only asserted on literal/declared types; typing table: a null or dynamically typed operand excuses nothing; U6/U10 zones are not asserted; method arity on receivers the reference cannot type is not asserted; trusts harness/src/nsgen/resolve.rs."),
  "C10": dict(
     technique="metamorphic property-based testing (one token sequence, six generated layouts + redundant parentheses)",
     text="Each generated program (accepted or statically rejected) is rendered from its token list as canonical text, one line, one token per line, random separators (space/tab/LF/CR/CRLF), with `#` comments after any token, and padded; the implementation's own lexer must return the same tokens for all, and acceptance, diagnostics multiset, printed values and ending must equal the canonical rendering. A parenthesised variant must behave identically.",
     note="Whitespace kinds limited to those the property names; comments never inside a multi-word keyword."),
  "C14": dict(
     technique="differential property-based testing: real binaries (3 input routes, dev+release) vs library pipeline with separate arenas; history testing through the playground entry point derived from wasm/src/lib.rs",
-    text="Generated programs (accepted, failing at run time, with warnings, statically rejected) are run through the naija binary by file, --eval and stdin and compared byte-for-byte (stdout) and by exit status with the library pipeline using fresh separate arenas. Histories of up to 8 runs over up to 4 programs are executed back to back in one process through a native build of the real playground entry point; every position must give the result the program gives alone in a fresh process.",
+    text="Generated programs (accepted, failing at run time, with warnings, statically rejected; a quarter padded beyond 8/16/24 KiB with multi-byte characters across that offset) are run through the naija binary by file, --eval and stdin (in one or several writes) and compared byte-for-byte (stdout) and by exit status with the library pipeline using fresh separate arenas. Histories of up to 8 runs over up to 4 programs are executed back to back in one process through a native build of the real playground entry point; every position must give the result the program gives alone in a fresh process.",
     note="The playground entry is derived at build time from wasm/src/lib.rs (wasm attributes stripped, HTML conversion = identity); if the derivation no longer applies the check exits 2."),
  "C15": dict(
     technique="property-based testing of generated builder scripts x host policies against an independent contract model; reporting helper child as spawn marker",
@@ -75,11 +75,11 @@ CHECKS.update({
     note="Needs process spawning in the sandbox; env-pair counting cases the documentation leaves open are discarded."),
  "C16": dict(
     technique="property-based testing of generated emission plans x capture policies x caps x poll intervals (sampled schedules) against a plan-derived expectation",
-    text="A helper child executes generated emission plans (chunked stdout/stderr, delays, invalid UTF-8, exit code or signal, linger) under all nine capture policy pairs, caps at cap-1/cap/cap+1 around chunk and pipe sizes, poll intervals 1-50 ms and timeouts far above or below the run time. Captured output must be complete and unmixed or the run must end with the documented error; after an error the child must be gone.",
+    text="A helper child executes generated emission plans (chunked stdout/stderr, delays, invalid UTF-8 as an impossible byte or as a truncated / overlong / surrogate / stray sequence at start, middle or end, exit code or signal, linger) under all nine capture policy pairs, caps at cap-1/cap/cap+1 around chunk and pipe sizes, poll intervals 1-50 ms and timeouts far above or below the run time. Captured output must be complete and unmixed or the run must end with the documented error; after an error the child must be gone.",
     note="Thread interleavings are sampled, not enumerated (no schedule hooks); timing margins >= 10x, a missed margin is inconclusive."),
  "C18": dict(
-    technique="generated parametric size families with threshold search guided by the limit warning (bounded search + proptest-chosen sizes)",
-    text="For each analysis limit a program family with analysis bait and a known output is sized just below, at and above the point where the resource-limit warning appears (verified from a committed hint or found by bisection), plus random sizes. At every size the program must be accepted and print the known output with and without the plan; above a limit exactly one `analysis` warning with figures matching an independent count, no plan and nothing skipped; below it the bait warnings, a non-empty plan and skipped statements.",
+    technique="generated parametric size families with threshold search guided by the limit warning (bounded search + proptest-chosen sizes), differential against a re-implementation of the staged limit comparison over measured counts",
+    text="For each analysis limit a program family with analysis bait, a binding-sensitive kernel (nested calls and definitions, block-local namesake, capture, recursion) and a known output is sized just below, at and above the point where the resource-limit warning appears (verified from a committed hint or found by bisection), plus random sizes. At every size the program must be accepted and print the known output with and without the plan; all eleven limited quantities are measured through the public counting API (countable ones must equal the generator's own counts) and the staged comparison with the default caps must agree with the warning: present exactly when a quantity exceeds its cap, naming the first one in the documented order with that figure; above a limit exactly one `analysis` warning, no plan and nothing skipped; below it the bait warnings, a non-empty plan and skipped statements.",
     note="`cfg ops` and `ops in one function` equal the statement count and are shadowed by the statements limit; `functions` is shadowed from below by `summary events`; `cfg blocks` by `scopes` in the family used (reported in the evidence)."),
 })
 
